@@ -30,7 +30,7 @@ claim("C03",
       BASE_NOTE + "Scapy's dissection of well-framed packets is modelled as RFC 791/8200/793 field extraction, not verified. Open finding F26 (Scapy cannot dissect a TCP-AO option of length 3) is listed in known_findings.json.",
       "Lean 4 refinement proof (parser = tokenizer + per-token interpretation; quirk iff header bits) + differential correspondence on byte-level packets", "5 C03")
 claim("C04",
-      "Model side: the option walk is defined by well-founded recursion that Lean accepts only because of the len>=2 advance (termination proof), layout_le_bytes (layout entries <= option bytes), tokenize_length_le (iterations <= bytes), all for every byte string. Runtime side (decisive for Scapy / h11 behaviour the model cannot exhibit): oracle on the real code over well-framed, truncated, inconsistent and hostile packets and HTTP payloads - exception category in {none, PacketError}, deterministic executed-line bound proportional to input length, 4 s watchdog.",
+      "Model side: the option walk is defined by well-founded recursion that Lean accepts only because of the len>=2 advance (termination proof), layout_le_bytes (layout entries <= option bytes), tokenize_length_le (iterations <= bytes), all for every byte string. Runtime side (decisive for Scapy / h11 behaviour the model cannot exhibit): oracle on the real code over well-framed, truncated, inconsistent and hostile packets and HTTP payloads (theorem readPayload_errors_closed: for EVERY byte string read_payload yields a result or PacketError, because no extracted line is empty) - exception category in {none, PacketError}, deterministic executed-line bound proportional to input length, 4 s watchdog.",
       BASE_NOTE + "PARTIAL: what Scapy does with ill-framed bytes and wall-clock time / memory are runtime behaviour outside the model; they are monitored, not proved. Work is measured as executed Python lines inside pyp0f.",
       "Lean 4 termination + bound theorems for the option walk; runtime oracle (exception category, executed-line bound) on generated hostile inputs", "5 C04")
 claim("C18",
@@ -41,6 +41,14 @@ claim("C08",
       "Theorems fpMtu_spec (MTU = MSS+40 / MSS+60; PacketError exactly for no MSS / fragment / other flags), findMtu_first (earliest record with exactly that MTU, or none), impMtu_frame (all other options and their order untouched), impMtu_in_place (positions of MSS entries kept, every one carries MTU-header), impMtu_prepend - for all option lists, MTU values and databases. The round trip 'MTU fingerprint of the impersonated packet is m' is decided by the property oracle on the real output (and by the model of Scapy's option encoding + the verified option walk) over base option lists incl. MSS 0, duplicates, EOL/garbage, every position.",
       BASE_NOTE + "PARTIAL: the round-trip clause is not yet a Lean theorem (needs the encode/parse composition lemma, planned with C05); it is decided by oracle + correspondence. A base whose MSS option sits behind an EOL cannot be fixed by an in-place replacement; those inputs are outside the round-trip clause.",
       "Lean 4 proofs of selection / frame / in-place theorems + property oracle and differential correspondence for the round trip", "5 C08")
+claim("C06",
+      "Theorems headersMatchGo_iff / headersMatch_iff (the index loop of headers_match holds exactly when the declarative walk does: each signature header found at the first position after the previous match, demanded substring in that occurrence, optional header only if it occurs nowhere), httpSigMatch_iff (version, required headers, absent headers, walk), findHttpMatch_eq_spec (earliest non-generic else earliest generic, by induction over the record list), dishonest_iff - for all header lists, signatures and databases. Tied to the code by an exhaustive small scope, messages with signatures derived backwards from them, signature-text parsing and database-level fingerprint_http runs.",
+      BASE_NOTE + "Byte strings are modelled as code-point lists; case-insensitive comparison is ASCII lower-casing (bytes.lower).",
+      "Lean 4 refinement proof (index loop = declarative walk; loop = find?-spec) + differential correspondence", "5 C06")
+claim("C07",
+      "Line-level theorems for every header line shape (header_line: name kept, value stripped, wire order; continuation_line; continuation_first_rejected; no_colon_rejected; empty_name_rejected) and first line shape (first_line_request / first_line_other / first_line_short, minorVersion_iff: exactly HTTP/1.<digit>), extractLines_nonempty and readPayload_errors_closed (every payload gives a result or PacketError). The composition over a whole rendered message (read_render) is NOT yet a theorem; it is decided by the oracle that compares the parsed result with the header list the generator wrote, and by correspondence on well-formed and single-defect corrupted messages.",
+      BASE_NOTE + "PARTIAL: read_render (whole-message composition of the line-level theorems through the blank-line scan) is covered by oracle + correspondence only. h11's maybe_extract_lines is modelled from its source.",
+      "Lean 4 proofs per line shape + closure theorem; property oracle (generator's own header list) and differential correspondence for whole messages", "5 C07")
 
 ALL = [f"C{i:02d}" for i in range(1, 19)]
 checks = []
